@@ -301,6 +301,25 @@ def run_case(spec, j):
                 1e-10 * scale, det)
       except Exception as e:
         j.violated('C08.subset-equal', dict(det, raised=repr(e)[:200]))
+  if name == 'RCA_Supervised' and (y < 0).any():
+    # unlabeled points give no chunks: a request one above what the labeled
+    # points can supply is as impossible with them as without them
+    from sklearn.base import clone
+    cs = pfull['chunk_size']
+    cap = sum(int((y == c_).sum()) // cs for c_ in np.unique(y[y >= 0]))
+    for yy, XX, tag in ((y, X, 'with-unlabeled'),
+                        (y[y >= 0], X[y >= 0], 'labeled-only')):
+      try:
+        with Quiet():
+          clone(sup).set_params(n_chunks=cap + 1).fit(XX, yy)
+        j.violated('C08.rca-infeasible-raises',
+                   dict(det, which=tag, capacity=cap, requested=cap + 1,
+                        n_unlabeled=int((y < 0).sum())))
+      except ValueError:
+        j.ok('C08.rca-infeasible-raises')
+      except Exception as e:
+        j.violated('C08.rca-infeasible-raises',
+                   dict(det, which=tag, raised=repr(e)[:200]))
   if j.sample is None:
     j.sample = dict(det, M_supervised=Msup, M_base_on_constraints=Mtw,
                     y_head=y[:12])
